@@ -44,6 +44,15 @@ def mk_member(hist, r):
 
     cls = hist.get("cls") or "SphericalDroplet"
     pos, R = np.asarray(r[:-1], float), float(r[-1])
+    mix = hist.get("mix")
+    if mix:
+        # frames mixing droplet classes (an emulsion allows that): the class is a deterministic function of the row
+        cls, _, n_modes = mix[int(abs(R) * 1e6 + abs(float(pos[0])) * 1e3) % len(mix)].partition(":")
+        if cls == "SphericalDroplet":
+            return dmod.SphericalDroplet(pos, R)
+        if cls == "DiffuseDroplet":
+            return dmod.DiffuseDroplet(pos, R, hist.get("width"))
+        return getattr(dmod, cls)(pos, R, hist.get("width"), [0.05 * math.sin(7.0 * R + k) for k in range(int(n_modes))])
     if cls == "SphericalDroplet":
         return dmod.SphericalDroplet(pos, R)
     width = hist.get("width")
@@ -57,6 +66,14 @@ def mk_member(hist, r):
 def rand_member_class(rng, hist):
     """Give a history a random member class (half of them stay spherical)."""
     if rng.random() < 0.5:
+        return hist
+    if rng.random() < 0.2:
+        pert = {2: "PerturbedDroplet2D", 3: "PerturbedDroplet3D"}.get(hist["dim"])
+        options = [["SphericalDroplet", "DiffuseDroplet"]]
+        if pert:
+            options += [[pert + ":1", pert + ":3"], ["SphericalDroplet", "DiffuseDroplet", pert + ":2"]]
+        hist["mix"] = options[int(rng.integers(len(options)))]
+        hist["width"] = [None, 0.0, 0.37][int(rng.integers(3))]
         return hist
     hist["cls"] = str(rng.choice(MEMBER_CLASSES[hist["dim"]]))
     if hist["cls"] != "SphericalDroplet":
@@ -165,7 +182,12 @@ def index_tracks(hist, tracks, rec):
 
 
 def _tkey(t):
-    return float(t)
+    """Exact value of a time stamp (1 and 1.0 are the same stamp, 2**53 + 1 and float(2**53 + 1) are not)."""
+    from fractions import Fraction
+
+    if isinstance(t, (int, np.integer)) and not isinstance(t, bool):
+        return Fraction(int(t))
+    return Fraction(float(t))
 
 
 def _mk(r):
@@ -212,7 +234,7 @@ def check_partition(hist, call, before, after, rec):
     dup = [m for m, c in seen.items() if c > 1]
     rec.check(not missing, "no-loss", f"droplets (frame, index) {missing[:5]} appear in no track; {label}")
     rec.check(not dup, "no-duplicate", f"droplets (frame, index) {dup[:5]} appear more than once; {label}")
-    ts_all = [float(t) for t in hist["times"]]
+    ts_all = [_tkey(t) for t in hist["times"]]
     if not all(b > a for a, b in zip(ts_all[:-1], ts_all[1:])):
         # repeated or restarting time stamps: which tracks count as alive is keyed on the stamps, so only the
         # partition itself (every droplet in exactly one track, unaltered) is demanded
@@ -461,6 +483,14 @@ def random_history(rng, *, overlapping=False):
     else:
         times = list(np.cumsum(rng.uniform(0.1, 3.0, T)) + rng.uniform(-10, 10))
     times = [float(t) for t in times]
+    if rng.random() < 0.06:
+        # integer time stamps that float64 cannot represent (e.g. nanoseconds since some epoch): they are kept as
+        # python ints and have to come out of the tracker exactly
+        t_base = 2 ** 53 + 1 + 2 * int(rng.integers(0, 1000))
+        times = [t_base + 2 * int(k) * int(rng.integers(1, 4)) for k in range(T)]
+        times = sorted(set(times))
+        while len(times) < T:
+            times.append(times[-1] + 2)
     n0 = int(rng.integers(0, 7))
     drops = [(lo + rng.uniform(0, L, dim), float(rng.uniform(0.2, 1.0))) for _ in range(n0)]
     frames = []
